@@ -305,13 +305,13 @@ theorem eq_of_sub_eq_int_mul {P u v : α} {z : ℤ} (hP : 0 < P) (hu0 : 0 ≤ u)
 /-- Counter-clockwise angle swept from `a1` to `a2` with period `P` (`Arc2D.angle`). -/
 def swept (P a1 a2 : α) : α := if ¬ (a2 < a1) then a2 - a1 else P + (a2 - a1)
 
-/-- The swept angle is unchanged when both end angles are shifted by the same amount and then
-reduced into `[0, P)` by integer multiples of the period — provided the original angles lie in
-`[0, P]` and are not the full circle `(0, P)`. -/
-theorem swept_shift {P a1 a2 b1 b2 θ : α} {n1 n2 : ℤ} (hP : 0 < P)
+/-- The swept angle only depends on `a2 - a1` modulo the period: if `(b2 - b1) - (a2 - a1)` is an
+integer multiple of `P`, the `b`'s lie in `[0, P)`, the `a`'s in `[0, P]` and are not the full
+circle `(0, P)`, then the swept angles agree. -/
+theorem swept_congr {P a1 a2 b1 b2 : α} {z : ℤ} (hP : 0 < P)
     (ha1 : 0 ≤ a1 ∧ a1 ≤ P) (ha2 : 0 ≤ a2 ∧ a2 ≤ P) (hnc : ¬ (a1 = 0 ∧ a2 = P))
     (hb1 : 0 ≤ b1 ∧ b1 < P) (hb2 : 0 ≤ b2 ∧ b2 < P)
-    (e1 : b1 = a1 + θ - (n1 : α) * P) (e2 : b2 = a2 + θ - (n2 : α) * P) :
+    (h : (b2 - b1) - (a2 - a1) = (z : α) * P) :
     swept P b1 b2 = swept P a1 a2 := by
   have hlt : a2 - a1 < P := by
     by_contra hge
@@ -320,17 +320,28 @@ theorem swept_shift {P a1 a2 b1 b2 θ : α} {n1 n2 : ℤ} (hP : 0 < P)
   unfold swept
   by_cases c1 : b2 < b1 <;> by_cases c2 : a2 < a1 <;>
     simp only [c1, c2, not_true_eq_false, not_false_eq_true, if_true, if_false]
-  · refine eq_of_sub_eq_int_mul (z := n1 - n2) hP (by linarith) (by linarith)
+  · refine eq_of_sub_eq_int_mul (z := z) hP (by linarith) (by linarith)
       (by linarith) (by linarith) ?_
-    rw [e1, e2]; push_cast; ring
-  · refine eq_of_sub_eq_int_mul (z := n1 - n2 + 1) hP (by linarith) (by linarith)
+    linear_combination h
+  · refine eq_of_sub_eq_int_mul (z := z + 1) hP (by linarith) (by linarith)
       (by linarith [not_lt.mp c2]) hlt ?_
-    rw [e1, e2]; push_cast; ring
-  · refine eq_of_sub_eq_int_mul (z := n1 - n2 - 1) hP (by linarith [not_lt.mp c1]) (by linarith)
+    push_cast; linear_combination h
+  · refine eq_of_sub_eq_int_mul (z := z - 1) hP (by linarith [not_lt.mp c1]) (by linarith)
       (by linarith) (by linarith) ?_
-    rw [e1, e2]; push_cast; ring
-  · refine eq_of_sub_eq_int_mul (z := n1 - n2) hP (by linarith [not_lt.mp c1]) (by linarith)
+    push_cast; linear_combination h
+  · refine eq_of_sub_eq_int_mul (z := z) hP (by linarith [not_lt.mp c1]) (by linarith)
       (by linarith [not_lt.mp c2]) hlt ?_
-    rw [e1, e2]; push_cast; ring
+    linear_combination h
+
+/-- The swept angle is unchanged when both end angles are shifted by the same amount and then
+reduced into `[0, P)` by integer multiples of the period — provided the original angles lie in
+`[0, P]` and are not the full circle `(0, P)`. -/
+theorem swept_shift {P a1 a2 b1 b2 θ : α} {n1 n2 : ℤ} (hP : 0 < P)
+    (ha1 : 0 ≤ a1 ∧ a1 ≤ P) (ha2 : 0 ≤ a2 ∧ a2 ≤ P) (hnc : ¬ (a1 = 0 ∧ a2 = P))
+    (hb1 : 0 ≤ b1 ∧ b1 < P) (hb2 : 0 ≤ b2 ∧ b2 < P)
+    (e1 : b1 = a1 + θ - (n1 : α) * P) (e2 : b2 = a2 + θ - (n2 : α) * P) :
+    swept P b1 b2 = swept P a1 a2 := by
+  refine swept_congr (z := n1 - n2) hP ha1 ha2 hnc hb1 hb2 ?_
+  rw [e1, e2]; push_cast; ring
 
 end Lbg.Lemmas
